@@ -15,6 +15,7 @@ size_t vsim_sizeof_ssl(void);
 int vsim_peek_outlen(const struct ssl *ssl);
 int vsim_peek_inlen(const struct ssl *ssl);
 int vsim_peek_insize(const struct ssl *ssl);
+int vsim_peek_tls13_group(const struct ssl *ssl);
 int vsim_peek_outsize(const struct ssl *ssl);
 int vsim_peek_err(const struct ssl *ssl);
 int vsim_peek_dtls_flight_done(const struct ssl *ssl);
